@@ -131,6 +131,18 @@ impl SoundData for ProbeSoundData {
 	}
 }
 
+/// Sound data whose `into_sound` fails.
+pub struct FailingSoundData;
+
+impl SoundData for FailingSoundData {
+	type Error = ();
+	type Handle = ();
+
+	fn into_sound(self) -> Result<(Box<dyn Sound>, Self::Handle), Self::Error> {
+		Err(())
+	}
+}
+
 /// Stateless affine effect `x -> x * gain + offset` (per channel offsets), so
 /// order and placement in a chain are observable; logs every call.
 pub struct ProbeEffect {
